@@ -75,7 +75,7 @@ record("TranscriptModel", {"chr_id": "str", "strand": "str", "transcript_id": "s
                            "other_features": "list[tuple[int,int,str]]", "additional_info": "dict[str,str]", "intron_path": "any"})
 
 contract("src/gene_info.py:TranscriptModel.from_reference_transcript", {"cls": None, "gene_info": "rec:GeneInfoRef", "isoform_id": "str"},
-         returns="rec:TranscriptModel", props=["C03"], native=False,
+         returns="rec:TranscriptModel", props=["C03", "C17"], native=False,
          requires=["isoform_id in gene_info.isoform_strands and isoform_id in gene_info.gene_id_map and isoform_id in gene_info.all_isoforms_exons "
                    "and isoform_id in gene_info.sources and isoform_id in gene_info.other_features"],
          # a transcript reported under a reference id carries exactly the reference exon coordinates, strand, gene and source
